@@ -1,0 +1,16 @@
+//go:build verif
+
+package table
+
+import "github.com/weedbox/syncsaga"
+
+// Verification hooks (build tag verif) for the table's driver of a hand
+// (game.go): read-only access to the ready group and the closed flag, so that a
+// check can tell when the driver's goroutines have come to rest.  Nothing here
+// changes what the driver does.
+
+// VerifGameReadyGroup returns the ready group of a game made by NewGame.
+func VerifGameReadyGroup(g Game) *syncsaga.ReadyGroup { return g.(*game).rg }
+
+// VerifGameClosed reports whether the driver has closed the game.
+func VerifGameClosed(g Game) bool { return g.(*game).isClosed }
